@@ -451,6 +451,20 @@ impl<T> DataReaderEntity<T> {
             return Ok(AddChangeResult::NotAdded);
         }
 
+        let num_alive_samples_of_instance = self
+            .sample_list
+            .iter()
+            .filter(|cc| {
+                cc.instance_handle == sample.instance_handle && cc.kind == ChangeKind::Alive
+            })
+            .count() as u32;
+
+        // With KEEP_LAST the oldest sample of a full instance is replaced, so the number of
+        // stored samples does not grow and the sample limits must not reject the new sample
+        let keep_last_replaces_oldest_sample = matches!(
+            self.qos.history.kind,
+            HistoryQosPolicyKind::KeepLast(depth) if depth == num_alive_samples_of_instance
+        );
         let is_max_samples_limit_reached = {
             let total_samples = self
                 .sample_list
@@ -458,7 +472,8 @@ impl<T> DataReaderEntity<T> {
                 .filter(|cc| cc.kind == ChangeKind::Alive)
                 .count();
 
-            total_samples == self.qos.resource_limits.max_samples
+            !keep_last_replaces_oldest_sample
+                && total_samples == self.qos.resource_limits.max_samples
         };
         let is_max_instances_limit_reached = {
             let mut instance_handle_list = Vec::new();
@@ -481,7 +496,8 @@ impl<T> DataReaderEntity<T> {
                 .filter(|cc| cc.instance_handle == sample.instance_handle)
                 .count();
 
-            total_samples_of_instance == self.qos.resource_limits.max_samples_per_instance
+            !keep_last_replaces_oldest_sample
+                && total_samples_of_instance == self.qos.resource_limits.max_samples_per_instance
         };
         if is_max_samples_limit_reached {
             return Ok(AddChangeResult::Rejected(
@@ -499,14 +515,6 @@ impl<T> DataReaderEntity<T> {
                 SampleRejectedStatusKind::RejectedBySamplesPerInstanceLimit,
             ));
         }
-        let num_alive_samples_of_instance = self
-            .sample_list
-            .iter()
-            .filter(|cc| {
-                cc.instance_handle == sample.instance_handle && cc.kind == ChangeKind::Alive
-            })
-            .count() as u32;
-
         if let HistoryQosPolicyKind::KeepLast(depth) = self.qos.history.kind {
             if depth == num_alive_samples_of_instance {
                 let index_sample_to_remove = self
